@@ -25,6 +25,7 @@ TRAIT_OPS = {
     'CheckedRem': 'checked_rem', 'DivRounded': 'div_rounded', 'MulRounded': 'mul_rounded',
     'PartialEq': 'eq', 'PartialOrd': 'partial_cmp', 'Ord': 'cmp', 'Neg': 'neg', 'Quantize': 'quantize',
 }
+REF_FORM_OPS = ('add', 'sub', 'mul', 'div', 'rem', 'checked_add', 'checked_sub', 'checked_mul', 'checked_div', 'checked_rem')
 # kernel / helper functions -> public operations (op, lhs kinds, rhs kinds) that exercise them
 ALL_DEC = ('d',)
 ANY = ('d',) + tuple(INTS)
@@ -42,7 +43,8 @@ KERNEL_OPS = {
     'round::': [('round', ALL_DEC, None), ('checked_round', ALL_DEC, None)],
     'unops::': [('floor', ALL_DEC, None), ('ceil', ALL_DEC, None), ('trunc', ALL_DEC, None), ('fract', ALL_DEC, None),
                 ('neg', ALL_DEC, None), ('abs', ALL_DEC, None), ('rem', ALL_DEC, ALL_DEC)],
-    'binops::cmp::impl Decimal': [('eq_zero', ALL_DEC, None), ('eq_one', ALL_DEC, None), ('mul', ALL_DEC, ALL_DEC)],
+    'binops::cmp::impl Decimal': [('eq_zero', ALL_DEC, None), ('eq_one', ALL_DEC, None), ('is_negative', ALL_DEC, None), ('is_positive', ALL_DEC, None),
+                                  ('mul', ALL_DEC, ALL_DEC)],
     'impl Decimal::magnitude': [('magnitude', ALL_DEC, None)],
     'u128_': [('mul', ALL_DEC, ALL_DEC), ('div', ALL_DEC, ALL_DEC), ('div_rounded', ALL_DEC, ALL_DEC), ('mul_rounded', ALL_DEC, ALL_DEC)],
     'u256_': [('mul', ALL_DEC, ALL_DEC), ('div', ALL_DEC, ALL_DEC), ('div_rounded', ALL_DEC, ALL_DEC), ('mul_rounded', ALL_DEC, ALL_DEC)],
@@ -55,13 +57,13 @@ KERNEL_OPS = {
                         ('rkyv_dec_partial_cmp', ALL_DEC, ALL_DEC), ('rkyv_roundtrip', ALL_DEC, None)],
     'serde': [('serde_to_json', ALL_DEC, None), ('serde_roundtrip', ALL_DEC, None)],
     'parser::': [('from_str', ('s',), None)],
-    'from_str::': [('from_str', ('s',), None)],
+    'from_str::': [('from_str', ('s',), None), ('try_from_str', ('s',), None), ('try_from_string', ('s',), None), ('parse', ('s',), None)],
     'format::': [('to_string', ALL_DEC, None), ('string_from', ALL_DEC, None), ('debug', ALL_DEC, None), ('format', ALL_DEC, None)],
     'from_float::': [('try_from_float', ('f64', 'f32'), None)],
     'into_float::': [('into_f64', ALL_DEC, None), ('into_f32', ALL_DEC, None)],
-    'from_int::': [('from_int', tuple(INTS), None)],
+    'from_int::': [('from_int', tuple(INTS), None), ('from_u128', ('s',), None)],
     'into_int::': [('into_int', ALL_DEC, ('t',))],
-    'as_integer_ratio::': [('ratio', ALL_DEC, None), ('hash_is_ratio_hash', ALL_DEC, None)],
+    'as_integer_ratio::': [('ratio', ALL_DEC, None), ('numerator', ALL_DEC, None), ('denominator', ALL_DEC, None), ('hash_is_ratio_hash', ALL_DEC, None)],
     'impl Hash for Decimal': [('hash_is_ratio_hash', ALL_DEC, None)],
 }
 
@@ -89,10 +91,23 @@ def ops_for(fn):
             rk = kind_of_type(targ or self_ty)
             if trait.endswith('Assign'):
                 return [(TRAIT_OPS[trait], ALL_DEC, ANY)]
-            if trait in ('Neg', 'Ord'):
-                return [(TRAIT_OPS[trait], ALL_DEC, ALL_DEC if trait == 'Ord' else None)]
+            if trait == 'Neg':
+                return [('neg', ALL_DEC, None)]
+            if trait == 'Ord':
+                return [('cmp', ALL_DEC, ALL_DEC), ('max', ALL_DEC, ALL_DEC), ('min', ALL_DEC, ALL_DEC)]
             if lk and rk:
-                return [(TRAIT_OPS[trait], (lk,), (rk,))]
+                base = TRAIT_OPS[trait]
+                # by-reference impl forms are exercised through the matching reference expression
+                lref = self_ty.strip().startswith('&')
+                rref = (targ or '').strip().startswith('&')
+                if base in REF_FORM_OPS and (lref or rref):
+                    base += '_rr' if (lref and rref) else '_rv' if lref else '_vr'
+                out = [(base, (lk,), (rk,))]
+                if trait == 'PartialEq':
+                    out.append(('ne', (lk,), (rk,)))
+                if trait == 'PartialOrd':
+                    out += [(o, (lk,), (rk,)) for o in ('lt', 'le', 'gt', 'ge')]
+                return out
     out = []
     for pre, ops in KERNEL_OPS.items():
         if fn.startswith(pre) or (pre in fn):
@@ -219,7 +234,7 @@ def operands(kind, rng, budget):
         return ['%s:%d' % (kind, v) for v in sorted(vals) if lo <= v <= hi]
     if kind == 's':
         lits = ['', '0', '1', '-1', '+1', '1.5', '-0.5', '.5', '5.', '0.', '+.', '.', 'e5', '1e5', '1E-5', '1e+', '1e-', '2.5e-', '1e003',
-                '0e5', '0e0', '0.0e0', '00012', '1.50', '-0', '1_000', ' 1', '1 ', '1..2', '1.2.3', '--1', '1e1.5', 'abc', '1a',
+                '0e5', '0e0', '0.0e0', '00012', '1.50', '-0', '1_000', ' 1', '1 ', ' ', '12.5\n', '\t.5 ', '7\u00a0', ' -3e2', '1..2', '1.2.3', '--1', '1e1.5', 'abc', '1a',
                 '0.000000000000000000000000000000000000001e25', '1e-18', '1e-19', '0.1234567890123456789', '0.123456789012345678',
                 '1e38', '1e39', '170141183460469231731687303715884105727', '170141183460469231731687303715884105728',
                 '-170141183460469231731687303715884105727', '-170141183460469231731687303715884105728',
@@ -319,7 +334,7 @@ def _search(pid, r, d, key, tier, seed, profile_pair=None, budget=None, combos=N
                     ls = float_mid_decimals() + ls
                 # the thread default rounding mode is an input of every operation (a result that must not
                 # depend on it is compared under the default and under one other mode)
-                modes = oracle.MODES if op in ROUNDING_OPS else ['RoundHalfEven', rng.choice([m_ for m_ in oracle.MODES if m_ != 'RoundHalfEven'])]
+                modes = oracle.MODES if (op in ROUNDING_OPS or (op[-3:] in ('_rr', '_rv', '_vr') and op[:-3] in ROUNDING_OPS)) else ['RoundHalfEven', rng.choice([m_ for m_ in oracle.MODES if m_ != 'RoundHalfEven'])]
                 pairs = []
                 if rk and (lk == 'd' or lk in oracle.INT_RANGES) and (rk == 'd' or rk in oracle.INT_RANGES) and 'd' in (lk, rk):
                     pairs = aligned_pairs(lk, rk, rng)[:3000]
